@@ -29,7 +29,7 @@ def REGEN(ctx):
 
 
 def build(ctx):
-    ctx.build_driver("drv_c20", ["status.c", "string_view.c", "allocator.c"])
+    ctx.build_driver("drv_c20", ["status.c", "string_view.c", "allocator.c"], flags=["-O2"])
     # rebuild the model driver from the regenerated table so that impl==model checks the translator too
     ctx.c20_fallback = False
     if not os.path.exists(os.path.join(vlib.COQ, "gen", "StatusTable.v")):
@@ -63,18 +63,45 @@ def gen(ctx, seed, tier):
             for (o2, l2) in views:
                 if l1 == l2 or r.random() < 0.15:
                     cases.append("V %s %d %d %d %d" % (hexs, o1, l1, o2, l2))
+    # rewritten-bytes probe: same view values, bytes changed between two calls (stale-answer detection)
+    probes = []
+    for b in sorted(bufs):
+        n = len(b)
+        if n < 2:
+            continue
+        for _ in range(3):
+            b2 = tuple(r.choice(alphabet) for _ in range(n))
+            l = r.randint(1, n // 2)
+            o1, o2 = 0, r.randint(l, n - l) if n - l >= l else 0
+            if o1 == o2:
+                continue
+            h1 = "".join("%02x" % x for x in b)
+            h2 = "".join("%02x" % x for x in b2)
+            probes.append("W %s %s %d %d %d %d" % (h1, h2, o1, l, o2, l))
+    # guaranteed flips: equal -> different and different -> equal
+    probes += ["W 61626162 61626163 0 2 2 2", "W 61626163 61626162 0 2 2 2", "W 0000 0001 0 1 1 1", "W 6100 6161 0 1 1 1"]
     if tier == "quick" and len(cases) > 9000:
         head = cases[:645]
         rest = cases[645:]
         r.shuffle(rest)
         cases = head + rest[:8000]
-    return cases
+    return cases + probes
 
 
 def run_impl(ctx, cases):
-    rc, out, err = ctx.run_lines([ctx.path("drv_c20")], cases)
-    if rc != 0:
-        out = out + ["CRASH rc=%d %s" % (rc, err.strip().split("\n")[0][:200] if err.strip() else "")] * (len(cases) - len(out))
+    """a case that aborts the driver (ASan/UBSan) gets a CRASH line; the run resumes after it"""
+    out, todo = [], list(cases)
+    while todo:
+        rc, res, err = ctx.run_lines([ctx.path("drv_c20")], todo)
+        out += res[:len(todo)]
+        if rc == 0 and len(res) >= len(todo):
+            break
+        done = len(res)
+        if done >= len(todo):
+            break
+        first = [l for l in err.split("\n") if "ERROR" in l or "runtime error" in l][:1]
+        out.append("CRASH rc=%d %s" % (rc, first[0].strip()[:160] if first else ""))
+        todo = todo[done + 1:]
     return out
 
 
@@ -94,6 +121,13 @@ def run_model(ctx, cases):
         ms.append("<model unavailable>")
         if t[0] == "E":
             ss.append("*" if enum is None else "msg=" + enum.get(int(t[1]), "Unknown error"))
+        elif t[0] == "W":
+            o1, l1, o2, l2 = map(int, t[3:])
+            r = []
+            for h in (t[1], t[2]):
+                mem = bytes.fromhex(h)
+                r.append("true" if mem[o1:o1 + l1] == mem[o2:o2 + l2] else "false")
+            ss.append("eq1=%s eq2=%s" % tuple(r))
         else:
             mem = bytes.fromhex("" if t[1] == "-" else t[1])
             o1, l1, o2, l2 = map(int, t[2:])
@@ -106,6 +140,8 @@ def nontrivial(c):
     t = c.split()
     if t[0] == "E":
         return 0 <= int(t[1]) < 14
+    if t[0] == "W":
+        return True
     return t[3] == t[5] and t[3] != "0"
 
 
